@@ -19,7 +19,7 @@ BUDGET = {'quick': 140, 'thorough': 1200}
 MODES = {'quick': [('J', 5), ('I', 11)], 'thorough': [('J', 6), ('I', 10)]}
 FLOORS = {'quick': {'visibility.cells_judged': 20000, 'has_invisible_cell': 300, 'observer.corner': 60, 'observer.edge': 100,
                     'vertical_angle': 400, 'cx!=cy': 120, 'modeI.tree.rotations': 200, 'modeI.tree.deletes': 2000, 'compiled_mode_cases': 60,
-                    'observer_elev.negative': 40, 'mirror_relation': 150},
+                    'observer_elev.negative': 40, 'mirror_relation': 150, 'terrain_side>=12': 400},
           'thorough': {'visibility.cells_judged': 200000, 'has_invisible_cell': 3000}}
 DONTCARE_OF = {'visibility.boundary_or_tie': 'visibility.cells_judged'}
 ASSUMPTIONS = ['the reference evaluates the same geometric model (corner positions, bearing unwrapping, corner elevations) by brute force; it shares the model, not the sweep / balanced-tree machinery',
@@ -38,14 +38,16 @@ def plan(tier, seed):
             out.append(('allobs', '%d,%d,%d' % (h, w, rep)))
     n = 2400 if tier == 'quick' else 12000
     out += [('rand', i) for i in range(n)]
+    # mid-size terrains (12..20 a side): rarer tree shapes (two-children deletions under a stale ancestor) need more active cells
+    out += [('mid', i) for i in range(1300 if tier == 'quick' else 6000)]
     return out
 
 
 def shard_filter(descs, shard, nshards, mode):
     if mode == 'J':
-        sel = [d for i, d in enumerate(descs) if i % 6 == 0]
+        sel = [d for i, d in enumerate(descs) if i % 6 == 0 and d[0] != 'mid']
     else:
-        sel = [d for i, d in enumerate(descs) if i % 6 != 0]
+        sel = [d for i, d in enumerate(descs) if i % 6 != 0 or d[0] == 'mid']
     return [d for i, d in enumerate(sel) if i % nshards == shard]
 
 
@@ -186,6 +188,7 @@ def _run_case(rec, Z, vr, vc, obs, tgt, cx, cy, ydesc, kind, sample=False):
     rec.cls('terrain.' + kind)
     if rec.mode == 'J': rec.ok('compiled_mode_cases')
     rec.mx('max_cells', H * W)
+    if min(H, W) >= 12: rec.ok('terrain_side>=12')
     if sample:
         rec.sample(pay)
     # mirror relation (independent of the reference model): flipping the terrain and the observer left-right must flip the
@@ -227,6 +230,8 @@ def check(rec, kind, idx, rng, tier):
         return
     maxs = 12 if tier == 'quick' else (20 if idx % 10 == 0 else 12)
     H, W = int(rng.integers(2, maxs + 1)), int(rng.integers(2, maxs + 1))
+    if kind == 'mid':
+        H, W = int(rng.integers(12, 21)), int(rng.integers(12, 21))
     tk, Z = _terrain(rng, H, W)
     cx, cy = float(rng.choice([1, 1, 0.5, 2.5, 30])), float(rng.choice([1, 1, 3, 0.25, 30]))
     where = str(rng.choice(['any', 'any', 'corner', 'edge']))
